@@ -245,7 +245,7 @@ def decide(label, ob, timeout_ms=20000, twin=False, max_paths=64, prove_defined=
             return out
         out["discharged"] += 1
         if twin and conj and out["twin"] is None:
-            out["twin"] = engine.check_valid(hyps, z3.BoolVal(False), timeout_ms)[0]   # hypotheses satisfiable?
+            out["twin"] = engine.hyps_satisfiable(hyps)
     if n_declined == len(paths) and paths:
         out.update(status="declined", detail="all paths declined")
     out["wall_s"] = round(time.time() - t0, 3)
